@@ -5,6 +5,7 @@ package main
 import (
 	"bytes"
 	"fmt"
+	"os"
 	"sort"
 	"strings"
 
@@ -126,7 +127,7 @@ func c18Info(i *graph.NodeInfo) Term {
 
 type c18Tabs struct {
 	fv, pct map[int64]string
-	c      *graph.DotConfig
+	c       *graph.DotConfig
 }
 
 func (t *c18Tabs) val(v int64) {
@@ -385,7 +386,7 @@ func c18SynthGraph(r *Rng, meta bool, unitSafe bool) (*graph.Graph, *graph.DotAt
 
 type c18POpts struct {
 	meta, fileMeta, unitMeta bool
-	diff                      bool // +v / -v pairs so that nodes net to zero
+	diff                     bool // +v / -v pairs so that nodes net to zero
 }
 
 func c18Profile(r *Rng, o c18POpts) *profile.Profile {
@@ -494,10 +495,10 @@ func c18Profile(r *Rng, o c18POpts) *profile.Profile {
 
 type c18ROpts struct {
 	callTree, dropNeg, trim bool
-	gran                     string
-	title                    string
-	nodeCount                int
-	unit                     string // explicit -unit (coarse units make costs truncate to 0); "" = minimum
+	gran                    string
+	title                   string
+	nodeCount               int
+	unit                    string // explicit -unit (coarse units make costs truncate to 0); "" = minimum
 }
 
 func c18Report(p *profile.Profile, format int, o c18ROpts) *report.Report {
@@ -543,6 +544,10 @@ func runC18(c *Ctx) {
 	}
 
 	dotCase := func(gen string, g *graph.Graph, a *graph.DotAttributes, cfg *graph.DotConfig, tags ...string) {
+		// C18_ONLY=<prefix>: debugging aid, emit only the dot streams whose name starts with the prefix
+		if only := os.Getenv("C18_ONLY"); only != "" && !strings.HasPrefix(gen, only) {
+			return
+		}
 		in := L(S("dot"), c18DumpDot(g, a, cfg))
 		obs := c18Compose(g, a, cfg)
 		nt := len(g.Nodes) > 0
@@ -557,13 +562,13 @@ func runC18(c *Ctx) {
 		g, a, cfg = c18Witness("f", "di\"r/fi\"le.go")
 		dotCase("fixed-F30", g, a, cfg)
 	}
-	for i := 0; i < c.Budget(340, 4000); i++ {
+	for i := 0; i < c.Budget(200, 4000); i++ {
 		meta := !r.P(1, 5)
 		g, a, cfg := c18SynthGraph(r, meta, !r.P(1, 3))
 		dotCase("dot-synth", g, a, cfg)
 	}
 	grans := []string{"functions", "lines", "files", "addresses", "filefunctions"}
-	for i := 0; i < c.Budget(260, 3500); i++ {
+	for i := 0; i < c.Budget(140, 3500); i++ {
 		po := c18POpts{meta: !r.P(1, 5), fileMeta: r.P(1, 3), unitMeta: r.P(1, 3), diff: r.P(1, 3)}
 		p := c18Profile(r, po)
 		ro := c18ROpts{callTree: r.P(1, 3), dropNeg: r.P(1, 4), trim: r.P(1, 3), gran: PickS(r, grans), nodeCount: 1 + r.Intn(3)}
@@ -591,7 +596,7 @@ func runC18(c *Ctx) {
 		p = c18CGWitness("callee", 0x3000, 0x3000, 0x1000)
 		c18CGCase(c, "finding-F11", p, c18ROpts{gran: "addresses"})
 	}
-	for i := 0; i < c.Budget(420, 4000); i++ {
+	for i := 0; i < c.Budget(320, 4000); i++ {
 		c18NoNL = !r.P(1, 12)
 		po := c18POpts{meta: !r.P(1, 5), fileMeta: r.P(1, 2), unitMeta: r.P(1, 6), diff: r.P(1, 5)}
 		p := c18Profile(r, po)
@@ -606,6 +611,8 @@ func runC18(c *Ctx) {
 	}
 
 	c18ExtCases(c, dotCase)
+	c18E2ECases(c, dotCase)
+	c18TrimCases(c)
 
 	c18HTMLCases(c)
 }
